@@ -1,0 +1,15 @@
+//go:build verif
+
+package dnsname
+
+//@ # ---- C07: zone containment. compareSuffix is the number of trailing labels two names share (the body of
+//@ # CompareSuffix is not verified: it is listed as trusted); Sub is verified against it.
+//@ uninterp compareSuffix(a string, b string) int
+//@ spec isSub(zone string, name string) bool := compareSuffix(zone, name) == countLabel(zone)
+//@ func CompareSuffix
+//@   trusted
+//@   modifies nothing
+//@   ensures result == compareSuffix(a, b)
+//@ func Sub
+//@   modifies nothing
+//@   ensures result == isSub(zone, name)
